@@ -197,7 +197,7 @@ def make_copy(instrument=True, extra_files=None):
 EXTRA_ADDER = {"adder/zz_verif.go": "package adder\n\n// VerifSetMaxCells overrides the table-size limit (scratch copy only).\nfunc VerifSetMaxCells(n int) { maxCells = n }\n\n// VerifMaxCells returns the current limit.\nfunc VerifMaxCells() int { return maxCells }\n"}
 
 
-def build_harness(name, go="go", gover="1.23", test_binary=False, repo_dir="repo"):
+def build_harness(name, go="go", gover="1.23", test_binary=False, repo_dir="repo", real_fastrand=False, build=True):
     """build /verif/harness/<name> against the scratch copy; returns (binary or None, output)"""
     s = scratch_dir()
     hdst = os.path.join(s, "h_" + name)
@@ -205,9 +205,11 @@ def build_harness(name, go="go", gover="1.23", test_binary=False, repo_dir="repo
     shutil.copytree(os.path.join(HARNESS, name), hdst)
     open(os.path.join(hdst, "go.mod"), "w").write(
         f"module garrharness/{name}\n\ngo {gover}\n\nrequire go.linecorp.com/garr v0.0.0\nrequire garrshim v0.0.0\nrequire github.com/valyala/fastrand v1.1.0\n"
-        f"replace go.linecorp.com/garr => ../{repo_dir}\n" "replace garrshim => ../shim\nreplace github.com/valyala/fastrand => ../shim/fastrand\n")
+        f"replace go.linecorp.com/garr => ../{repo_dir}\n" "replace garrshim => ../shim\n" + ("" if real_fastrand else "replace github.com/valyala/fastrand => ../shim/fastrand\n"))
     shutil.copy2(os.path.join(s, "repo", "go.sum"), os.path.join(hdst, "go.sum")) if os.path.exists(os.path.join(s, "repo", "go.sum")) else None
     binp = os.path.join(s, "bin_" + name)
+    if not build:
+        return binp, ""
     cmd = [go, "test", "-c", "-o", binp, "."] if test_binary else [go, "build", "-o", binp, "."]
     rc, out = sh(cmd, cwd=hdst, env=GOENV, timeout=900)
     if rc != 0:
@@ -548,6 +550,29 @@ def run_pool(res, binp, seed, total, tag, test="TestScenarios", shards=None):
 # ----------------------------------------------------------------------------- regenerated access facts (C14, C19)
 
 PKGS = ["queue", "adder", "circuit-breaker", "worker-pool", "retry"]
+BRACKETS = {}
+
+
+def run_race(res, rounds, tag="C14", timeout=1500):
+    """race-detector stress on the UN-instrumented working tree"""
+    make_copy(instrument=False)
+    binp, out = build_harness("race", real_fastrand=True, build=False)
+    s = scratch_dir()
+    hdst = os.path.join(s, "h_race")
+    binp = os.path.join(s, "bin_race")
+    rc, out = sh(["go", "test", "-race", "-c", "-o", binp, "."], cwd=hdst, env=GOENV, timeout=900)
+    if rc != 0:
+        res.add(Problem("correspondence", "race workload does not build against the working tree", out[-1500:]))
+        return None
+    env = dict(os.environ, RACE_ROUNDS=str(rounds), GORACE="halt_on_error=0")
+    p = subprocess.run([binp, "-test.timeout", f"{timeout}s"], env=env, stdout=subprocess.PIPE, stderr=subprocess.STDOUT, text=True)
+    races = re.findall(r"WARNING: DATA RACE\n(.*?)\n==================", p.stdout, flags=re.S)
+    for r in races[:5]:
+        res.add(Problem("monitor", "race detector: DATA RACE in a workload over the concurrent-safe API: " + " | ".join(l.strip() for l in r.split("\n")[:8])[:700],
+                        {"report": r[:3000]}, key=r[:300]))
+    if p.returncode != 0 and not races:
+        res.add(Problem("monitor" if "panic" in p.stdout else "correspondence", "race workload failed: " + p.stdout[-600:], None, key="race-workload-failed"))
+    return {"race_rounds": rounds, "races_reported": len(races), "ok": p.returncode == 0}
 
 
 def lean_str(s):
@@ -566,6 +591,8 @@ def extract_facts(res):
         res.add(Problem("correspondence", "facts extractor does not build", out[-1000:]))
         return None
     facts, selects, blocking = [], [], []
+    global BRACKETS
+    BRACKETS = {}
     for pkg in PKGS:
         rc, out = sh([binp, os.path.join(REPO, pkg)], cwd=REPO, env=GOENV, timeout=600)
         if rc != 0 or "typecheck:" in out:
@@ -576,6 +603,8 @@ def extract_facts(res):
             if f[0] == "FACT":
                 locks = [tuple(x.rsplit(":", 1)) for x in f[5].split(",") if x]
                 facts.append({"field": f"{f[1]}/{f[2]}", "fn": f[3], "kind": f[4], "locks": locks, "pos": f[6].replace(REPO + "/", "")})
+            elif f[0] == "BRACKETS":
+                BRACKETS[f"{f[1]}/{f[2]}"] = [x for x in f[3].split(",") if x]
             elif f[0] == "SELECT":
                 selects.append({"pkg": f[1], "pos": f[2].replace(REPO + "/", ""), "default": f[3] == "true"})
             elif f[0] == "BLOCKING":
@@ -603,5 +632,5 @@ def check_facts(res, facts, fields_filter=None):
     open(path, "w").write(src)
     rc, out = sh(["lake", "env", "lean", path], cwd=LEAN, timeout=1800)
     offending = re.findall(r"OFFENDING ([^\"\]]+)", out)
-    ok = rc == 0 and not offending and "COVERED true" in out
+    ok = rc == 0 and not offending and ("COVERED true" in out or fields_filter is not None)
     return ok, offending, out, len(sel)
